@@ -547,6 +547,11 @@ def _initialize_state_vars(network):
 				# Initialize inbound shipment pipeline and on-order quantities.
 				for l in range(n.shipment_lead_time or 0):
 					n.state_vars[0].inbound_shipment_pipeline[p_index][rm_index][l] = n.get_attribute('initial_shipments', prod_ind) or 0
+				# Orders to the external supplier have no order pipeline: they enter the shipment pipeline directly,
+				# behind the initial shipments.
+				if p_index is None:
+					for l in range(n.shipment_lead_time or 0, (n.shipment_lead_time or 0) + (n.order_lead_time or 0)):
+						n.state_vars[0].inbound_shipment_pipeline[p_index][rm_index][l] = n.get_attribute('initial_orders', prod_ind) or 0
 				n.state_vars[0].on_order_by_predecessor[p_index][rm_index] = \
 					(n.get_attribute('initial_shipments', prod_ind) or 0) * (n.get_attribute('shipment_lead_time', prod_ind) or 0) \
 						+ (n.get_attribute('initial_orders', prod_ind) or 0) * (n.get_attribute('order_lead_time', prod_ind) or 0)
